@@ -34,9 +34,9 @@ const MIN_DEPTH_SPEC: usize = 100; // "the required number of blocks"
 const PEER: [u8; 33] = [2u8; 33];
 const NCH: u64 = 4;
 
-fn fid(d: u64) -> u64 { 10 * d + 1 }
-fn did(d: u64) -> u64 { 10 * d + 2 }
-fn mid(d: u64) -> u64 { 10 * d + 3 }
+pub fn fid(d: u64) -> u64 { 10 * d + 1 }
+pub fn did(d: u64) -> u64 { 10 * d + 2 }
+pub fn mid(d: u64) -> u64 { 10 * d + 3 }
 fn uid(d: u64) -> u64 { 10 * d + 4 }
 fn sid(d: u64) -> u64 { 10 * d + 5 }
 fn tid(d: u64) -> u64 { 10 * d + 6 } // spend of the HTLC output of U_d
@@ -56,16 +56,16 @@ fn services(persister: Arc<dyn Persist>) -> NodeServices {
     }
 }
 
-struct W15 {
-    persister: Arc<dyn Persist>,
-    node: Arc<Node>,
+pub struct W15 {
+    pub persister: Arc<dyn Persist>,
+    pub node: Arc<Node>,
     seed: [u8; 32],
-    txs: BTreeMap<u64, Transaction>,
-    ids: HashMap<Txid, u64>,
+    pub txs: BTreeMap<u64, Transaction>,
+    pub ids: HashMap<Txid, u64>,
     kinds: BTreeMap<u64, String>,
-    blocks: Vec<Block>,
-    chain: Vec<Vec<u64>>,
-    cb: u32,
+    pub blocks: Vec<Block>,
+    pub chain: Vec<Vec<u64>>,
+    pub cb: u32,
 }
 
 fn chan_id(d: u64) -> ChannelId {
@@ -73,7 +73,7 @@ fn chan_id(d: u64) -> ChannelId {
 }
 
 impl W15 {
-    fn new() -> W15 {
+    pub fn new() -> W15 {
         let persister: Arc<dyn Persist> = Arc::new(KVVPersister(MemoryKVVStore::new([7u8; 16]), JsonFormat));
         let mut seed = [0u8; 32];
         seed.copy_from_slice(&hex::decode(TEST_SEED[1]).unwrap());
@@ -115,12 +115,12 @@ impl W15 {
         format!("T{}:{}:{}:{}", id, ins.join(";"), t.output.len(), self.kinds.get(&id).cloned().unwrap_or("p".into()))
     }
 
-    fn new_channel(&self, d: u64) -> Result<(), String> {
+    pub fn new_channel(&self, d: u64) -> Result<(), String> {
         self.node.new_channel(d, &PEER, &self.node).map(|_| ()).map_err(|e| e.message().to_string())
     }
 
     /// setup_channel + what sign_onchain_tx does for the funding inputs + the commitment/sweep of this channel
-    fn setup(&mut self, d: u64) -> Result<(), String> {
+    pub fn setup(&mut self, d: u64) -> Result<(), String> {
         let f = funding_tx(d);
         let fo = OutPoint::new(f.compute_txid(), 0);
         let mut setup = make_test_channel_setup();
@@ -213,7 +213,7 @@ impl W15 {
         }
     }
 
-    fn restart(&mut self) {
+    pub fn restart(&mut self) {
         let (node_id, entry) = self.persister.get_nodes().unwrap().into_iter().next().unwrap();
         let node = Node::restore_node(&node_id, entry, &self.seed, services(self.persister.clone())).unwrap();
         self.node = node;
@@ -221,7 +221,7 @@ impl W15 {
 
     fn dbid_of(&self, id: &ChannelId) -> u64 { id.oid() }
 
-    fn digest(&self) -> String {
+    pub fn digest(&self) -> String {
         let mut ch = Vec::new();
         for (id, slot) in self.node.get_channels().iter() {
             let s = slot.lock().unwrap();
